@@ -46,17 +46,18 @@ type WireMsg struct {
 
 // Party wraps one real conversation.
 type Party struct {
-	Name   string
-	Peer   string
-	Conv   *otr3.Conversation
-	Rand   *JRand
-	Priv   *otr3.DSAPrivateKey
-	Pol    Policy
-	Tag    uint32
-	Queue  []*WireMsg // messages waiting to be delivered to this party
-	evs    []string
-	w      *World
-	ErrMsg bool
+	Name     string
+	Peer     string
+	Conv     *otr3.Conversation
+	Rand     *JRand
+	Priv     *otr3.DSAPrivateKey
+	Pol      Policy
+	Tag      uint32
+	Queue    []*WireMsg // messages waiting to be delivered to this party
+	evs      []string
+	w        *World
+	ErrMsg   bool
+	randSeen int
 	// Mute: events of this party are not written to the trace (attacker-run endpoints)
 	Mute bool
 	// SMPTerm is the secret term the party bound in its current SMP run:
@@ -493,6 +494,14 @@ func (w *World) record(ev M, p *Party, cr callResult, out []M, err error) M {
 	}
 	ev["fresh"] = fresh
 	ev["panic"] = cr.panicked != ""
+	rf := false
+	for len(p.Rand.Reads) > p.randSeen {
+		if strings.HasSuffix(p.Rand.Reads[p.randSeen].Class, "/fail") || strings.HasSuffix(p.Rand.Reads[p.randSeen].Class, "/short") {
+			rf = true
+		}
+		p.randSeen++
+	}
+	ev["rf"] = rf
 	ev["ms"] = int(cr.ms)
 	ev["allock"] = int(cr.alloc / 1024)
 	ev["inlen"] = w.lastInLen
